@@ -2,6 +2,8 @@ package props
 
 import (
 	"fmt"
+	"github.com/remieven/ysgo"
+	"io"
 	"regexp"
 	"runtime/debug"
 	"strings"
@@ -46,27 +48,31 @@ var c05Classes = []string{"valid-program", "edge-character", "token-mutation", "
 
 func (c05) Thresholds(tier string) map[string]int64 {
 	th := map[string]int64{
-		"inputs":                          30000,
-		"accepted":                        3000,
-		"rejected":                        10000,
-		"oracle:lexer-error":              3000,
-		"oracle:parser-error":             8000,
-		"oracle:trailing-input":           3,
-		"oracle:mixed-indentation":        300,
-		"multi-reader-inputs":             5000,
-		"multi-reader-one-invalid-reader": 150,
-		"seeds":                           10000,
-		"seed:valid":                      2000,
-		"seed:invalid":                    2000,
-		"seed:invalid-utf8":               500,
-		"seed:empty":                      200,
-		"invalid-utf8-inputs":             1500,
-		"empty-input":                     100,
-		"mutation-still-valid":            1000,
-		"label-checks":                    3500,
-		"edge-character:invalid":          800,
-		"edge-character:at-start":         500,
-		"edge-character:at-end":           500,
+		"inputs":                             30000,
+		"accepted":                           3000,
+		"rejected":                           10000,
+		"oracle:lexer-error":                 3000,
+		"oracle:parser-error":                8000,
+		"oracle:trailing-input":              3,
+		"oracle:mixed-indentation":           300,
+		"multi-reader-inputs":                5000,
+		"multi-reader-one-invalid-reader":    150,
+		"seeds":                              10000,
+		"seed:valid":                         2000,
+		"seed:invalid":                       2000,
+		"seed:invalid-utf8":                  500,
+		"seed:empty":                         200,
+		"invalid-utf8-inputs":                1500,
+		"empty-input":                        100,
+		"mutation-still-valid":               1000,
+		"label-checks":                       3500,
+		"edge-character:invalid":             800,
+		"reader:none":                        700,
+		"reader:stuttering":                  2000,
+		"reader:failing":                     700,
+		"reader:fails-after-a-complete-node": 20,
+		"edge-character:at-start":            500,
+		"edge-character:at-end":              500,
 		"by-construction:mixed-indentation-not-deeper": 30,
 		"by-construction:content-after-last-node":      300,
 	}
@@ -80,7 +86,7 @@ func (c05) Thresholds(tier string) map[string]int64 {
 }
 
 func (c05) Rule() string {
-	return "case = 50 inputs derived from one generated valid program rendered in a PRNG layout: the program itself (must load); a valid program spread over 2-4 readers (must load) and the same readers with one of them made invalid by construction; token-level mutations (delete / duplicate / swap / insert / replace from a dictionary of << >> { } === --- -> <<if <<endif>> <<else>> # \\\\ \" ( , [ space/tab, stray > ...); line deletions; truncations at PRNG byte offsets; mutations that are invalid by construction (unbalanced <<endif>>, {1 +}, missing ===, tab+space indentation of a statement); raw byte strings with invalid UTF-8, NUL and lone CR; empty and white-space-only inputs; a valid script with one stray character (form feed, vertical tab, NEL, NBSP, ideographic space, line separator, BOM, NUL, zero-width space) or a white-space run at its very start or very end, or blank lines followed by an indented first header; each input also cut at PRNG byte offsets into 2-4 readers. Validity oracle: an independent parse in the harness with the grammar's lexer and parser and the harness's own counting error listeners - valid iff no lexer error, no parser error, the parser stopped at end of input, and - judged by the harness itself, not by the lexer - no line that carries a statement is indented with both tabs and blanks; a multi-reader input is valid iff every reader is. The oracle is cross-checked by two labels (generated programs are valid, the by-construction mutations are invalid); a disagreement there is a harness error (inconclusive). Verdict: NewDialogueRunner returns (panics are caught; a call that does not return is caught by the child watchdog and confirmed alone) and err == nil iff the input is valid. Seeds: 20 strings per case over arbitrary bytes, length 0-40: an error iff a character outside [0-9a-z] occurs, never a panic. Non-trivial: a mutation the oracle rejects, a valid program in a non-canonical layout, or a multi-reader split. Distinct by hash of the readers."
+	return "case = 50 inputs derived from one generated valid program rendered in a PRNG layout: the program itself (must load); a valid program spread over 2-4 readers (must load) and the same readers with one of them made invalid by construction; token-level mutations (delete / duplicate / swap / insert / replace from a dictionary of << >> { } === --- -> <<if <<endif>> <<else>> # \\\\ \" ( , [ space/tab, stray > ...); line deletions; truncations at PRNG byte offsets; mutations that are invalid by construction (unbalanced <<endif>>, {1 +}, missing ===, tab+space indentation of a statement); raw byte strings with invalid UTF-8, NUL and lone CR; empty and white-space-only inputs; a valid script with one stray character (form feed, vertical tab, NEL, NBSP, ideographic space, line separator, BOM, NUL, zero-width space) or a white-space run at its very start or very end, or blank lines followed by an indented first header; each input also cut at PRNG byte offsets into 2-4 readers; per case also: no reader at all (must be an error), the valid program / a mutation / a truncation delivered by a reader that returns 1-7 bytes per call, (0,nil) now and then and the last bytes together with io.EOF (same verdict as the string), and a reader that fails after a PRNG number of bytes - 0, all of them, or right after a complete node - alone and next to a healthy reader (must be an error). Validity oracle: an independent parse in the harness with the grammar's lexer and parser and the harness's own counting error listeners - valid iff no lexer error, no parser error, the parser stopped at end of input, and - judged by the harness itself, not by the lexer - no line that carries a statement is indented with both tabs and blanks; a multi-reader input is valid iff every reader is. The oracle is cross-checked by two labels (generated programs are valid, the by-construction mutations are invalid); a disagreement there is a harness error (inconclusive). Verdict: NewDialogueRunner returns (panics are caught; a call that does not return is caught by the child watchdog and confirmed alone) and err == nil iff the input is valid. Seeds: 20 strings per case over arbitrary bytes, length 0-40: an error iff a character outside [0-9a-z] occurs, never a panic. Non-trivial: a mutation the oracle rejects, a valid program in a non-canonical layout, or a multi-reader split. Distinct by hash of the readers."
 }
 
 func (c05) Assumptions() []string {
@@ -451,6 +457,11 @@ func (p c05) Run(c *core.Ctx) {
 			c.Sample(map[string]any{"class": class, "readers_quoted": quoteAll(readers)})
 		}
 	}
+	// ---- how the input arrives: no reader at all, readers that deliver one byte at a time, return (0, nil)
+	// now and then, deliver the last bytes together with io.EOF, or fail half-way
+	if !p.readerBehaviours(c, base) {
+		return
+	}
 	// ---- seeds
 	for i := 0; i < 20; i++ {
 		var seed string
@@ -501,4 +512,101 @@ func (p c05) Run(c *core.Ctx) {
 			return
 		}
 	}
+}
+
+type stutterReader struct {
+	data []byte
+	r    *core.Rand
+	fail int // fail with errBoom once this many bytes were delivered (-1: never)
+	sent int
+}
+
+var errBoom = fmt.Errorf("read error injected by the harness")
+
+func (s *stutterReader) Read(p []byte) (int, error) {
+	if s.fail >= 0 && s.sent >= s.fail {
+		return 0, errBoom
+	}
+	if len(s.data) == 0 {
+		return 0, io.EOF
+	}
+	if len(p) == 0 || s.r.Chance(1, 5) {
+		return 0, nil
+	}
+	n := 1 + s.r.Intn(min(len(p), 7))
+	if n > len(s.data) {
+		n = len(s.data)
+	}
+	if s.fail >= 0 && s.sent+n > s.fail {
+		n = s.fail - s.sent
+		if n == 0 {
+			return 0, errBoom
+		}
+	}
+	copy(p, s.data[:n])
+	s.data = s.data[n:]
+	s.sent += n
+	if len(s.data) == 0 && s.fail < 0 && s.r.Bool() {
+		return n, io.EOF // data and EOF in one call
+	}
+	return n, nil
+}
+
+// readerBehaviours: the verdict on an input does not depend on how its bytes arrive, a read error is an
+// error of NewDialogueRunner (the input is not what was loaded), and no reader at all is not a script.
+func (p c05) readerBehaviours(c *core.Ctx, valid string) bool {
+	r := c.R
+	create := func(readers ...io.Reader) (rr *ysgo.DialogueRunner, err error, pan string) {
+		defer func() {
+			if x := recover(); x != nil {
+				pan = fmt.Sprintf("%v\n%s", x, debug.Stack())
+			}
+		}()
+		rr, err = ysgo.NewDialogueRunner(nil, "k3", readers...)
+		return
+	}
+	// no reader
+	rr, err, pan := create()
+	c.Feature("reader:none")
+	if pan != "" || err == nil || rr != nil {
+		c.Violate("NewDialogueRunner without any reader must return an error", map[string]any{"panic": pan, "error": fmt.Sprint(err)})
+		return false
+	}
+	inputs := []string{valid, mutate(r, valid), valid[:r.Intn(len(valid)+1)]}
+	for _, in := range inputs {
+		want, _, _ := oracleValid(in)
+		// stuttering delivery
+		rr, err, pan = create(&stutterReader{data: []byte(in), r: r.Fork(), fail: -1})
+		c.Feature("reader:stuttering")
+		if pan != "" || want != (err == nil) || (err == nil) != (rr != nil) {
+			c.Violate("the verdict on an input depends on how its bytes are delivered by the reader", map[string]any{"input_quoted": fmt.Sprintf("%q", in), "oracle_says_valid": want, "error": fmt.Sprint(err), "panic": pan})
+			return false
+		}
+	}
+	// a read error, at any offset (also exactly at the end of a complete valid script, and at 0)
+	at := r.Intn(len(valid) + 1)
+	switch r.Intn(4) {
+	case 0:
+		at = len(valid)
+	case 1:
+		at = 0
+	case 2:
+		if k := strings.LastIndex(valid[:at], "===\n"); k >= 0 {
+			at = k + 4 // right after a complete node: what was delivered so far is a valid script
+			c.Feature("reader:fails-after-a-complete-node")
+		}
+	}
+	rr, err, pan = create(&stutterReader{data: []byte(valid), r: r.Fork(), fail: at})
+	c.Feature("reader:failing")
+	if pan != "" || err == nil || rr != nil {
+		c.Violate("a reader failed while the script was read, but NewDialogueRunner did not return an error", map[string]any{"script": valid, "bytes_delivered_before_the_error": at, "panic": pan})
+		return false
+	}
+	// the failing reader among healthy ones
+	rr, err, pan = create(strings.NewReader(valid), &stutterReader{data: []byte(valid), r: r.Fork(), fail: at})
+	if pan != "" || err == nil || rr != nil {
+		c.Violate("one of two readers failed while it was read, but NewDialogueRunner did not return an error", map[string]any{"script": valid, "bytes_delivered_before_the_error": at, "panic": pan})
+		return false
+	}
+	return true
 }
